@@ -144,6 +144,9 @@ func (x *Exec) instr(fr *frame, ins ssa.Instruction, st *State, r string) (strin
 		if _, isFA := i.Addr.(*ssa.FieldAddr); isFA {
 			x.guardedAccess(fr, i, i.Addr, st, r, true)
 		}
+		if fa, isFA := i.Addr.(*ssa.FieldAddr); isFA && fr.top && fr.c != nil {
+			x.storeAsserts(fr, i, fa, st, r)
+		}
 		p := x.val(fr, i.Addr)
 		r = x.guard(fr, ins, r, not(eq(p[0].T, "0")), "nil-deref")
 		memBefore := st.Mem
@@ -620,5 +623,34 @@ func (x *Exec) instantiateAt(idx string) {
 	x.qDone[idx] = true
 	for _, f := range x.qInst {
 		x.vc.S.raw("(assert " + f(idx) + ")")
+	}
+}
+
+// storeAsserts: `before store T.f assert E` clauses of the top-level contract at a store to field f
+// of a struct of type T.
+func (x *Exec) storeAsserts(fr *frame, i *ssa.Store, fa *ssa.FieldAddr, st *State, r string) {
+	stt, ok := deref(fa.X.Type()).Underlying().(*types.Struct)
+	if !ok {
+		return
+	}
+	tname := ""
+	if nt, ok := deref(fa.X.Type()).(*types.Named); ok {
+		tname = nt.Obj().Name()
+	}
+	what := tname + "." + stt.Field(fa.Field).Name()
+	for k, sa := range fr.c.Asserts {
+		if !sa.Store || sa.Callee != what {
+			continue
+		}
+		if x.assertHits == nil {
+			x.assertHits = map[int]int{}
+		}
+		x.assertHits[k]++
+		n := x.assertHits[k]
+		env := x.specEnv(fr, st, i.Block(), 0)
+		env.names["target"] = svOfVal(x.val(fr, fa.X), fa.X.Type())
+		env.names["val"] = svOfVal(x.val(fr, i.Val), i.Val.Type())
+		x.vc.cover(fmt.Sprintf("%s#cover:store:%s#%d", x.eng.fnKey(fr.fn), what, n), r, x.eng.pos(i.Pos()))
+		x.vc.oblige(fmt.Sprintf("%s#store:%s#%d.%d", x.eng.fnKey(fr.fn), what, n, k+1), "site", r, x.evalBool(env, sa.Cl.Expr), x.eng.pos(i.Pos()))
 	}
 }
